@@ -1,5 +1,6 @@
 import SodiumVerif.Model.GcScript
 import SodiumVerif.Model.SchedScript
+import SodiumVerif.Spec.Script
 
 open SodiumVerif
 
@@ -17,10 +18,27 @@ partial def nodeLoop (h : IO.FS.Stream) (out : IO.FS.Stream) (s : SchedScript.S)
   out.putStrLn o
   nodeLoop h out s'
 
+partial def readAll (h : IO.FS.Stream) (acc : Array String) : IO (Array String) := do
+  let line ← h.getLine
+  if line.isEmpty then return acc
+  readAll h (acc.push line)
+
+def specMain (stdin stdout : IO.FS.Stream) : IO Unit := do
+  let lines ← readAll stdin #[]
+  let mut cur : Array String := #[]
+  for l in lines do
+    if l.trimAscii.toString == "---" then
+      for o in Spec.runScript cur.toList do stdout.putStrLn o
+      stdout.putStrLn "---"
+      cur := #[]
+    else cur := cur.push l
+  for o in Spec.runScript cur.toList do stdout.putStrLn o
+
 def main (args : List String) : IO UInt32 := do
   let stdin ← IO.getStdin
   let stdout ← IO.getStdout
   match args with
   | ["gc"] => gcLoop stdin stdout {}; return 0
   | ["node"] => nodeLoop stdin stdout {}; return 0
+  | ["spec"] => specMain stdin stdout; return 0
   | _ => IO.eprintln "usage: driver gc|node|api|spec < script"; return 2
